@@ -37,7 +37,17 @@ Methods   == {"truncated_svd", "symeig_svd", "randomized_svd", "callable"}
 Overs     == {0, 1, 5, 10}                 \* n_oversamples handed to randomized_svd (5 = the default)
 NIters    == {0, 1, 2}                     \* n_iter (power iterations) handed to randomized_svd (2 = the default)
 Pow2s     == {-650, -530, -400, 0, 400, 650}  \* the matrix handed over is A * 2^pow2 (exact scaling; S is divided by it again)
-Masks     == {"off", "ones"}               \* mask=None | an all-ones mask ("nothing is missing": same contract)
+Masks     == {"off", "ones"}
+\* How `method` is handed to svd_interface ("acceptable values in tensorly.SVD_FUNS or a callable"):
+\*   "name"    the string;                       "libfun"  the library's own function object;
+\*   "partial" functools.partial of it (sketch options bound in the partial);
+\*   "lambda"  lambda m, n_eigenvecs=None, **kw: f(m, n_eigenvecs, **kw)   (options travel through **kw);
+\*   "kwonly"  def g(matrix, *, n_eigenvecs=None, **kw)      (the rank can only be bound by keyword);
+\*   "second"  def g(matrix, full_matrices=False, n_eigenvecs=None, **kw)   (another option precedes the rank);
+\*   "object"  an instance with __call__(self, matrix, n_eigenvecs=None, **kw);  "bound"  a bound method.
+\* svd_interface documents the call  method(matrix, n_eigenvecs=..., **kwargs): every form wraps the same routine
+\* and must therefore meet the contract of that routine, with every forwarded option taking effect.
+Forms     == {"name", "libfun", "partial", "lambda", "kwonly", "second", "object", "bound"}               \* mask=None | an all-ones mask ("nothing is missing": same contract)
 Flips     == {"off", "U", "V"}             \* flip_sign=False | u_based_flip_sign=True | False
 NonNegs   == {"off", "nndsvda", "nndsvd"}  \* non_negative = False | True (documented default type) | "nndsvd"
 Vias      == {"interface", "direct"}       \* svd_interface(...) | the method function called directly
@@ -47,6 +57,10 @@ Ks(m, n)  == 0..(MaxOf(m, n) + 1)          \* 0 = None; up to one past max(shape
 \* whenever the sketch covers the rank the contract is the same for every value, n_iter = 0 included.
 \* The grid: every (flip, non_negative) combination for the default n_iter with oversampling 0 / default;
 \* the other sketch parameters and the all-ones mask with the plain call (flip off, non_negative off).
+\* the form every earlier dimension of the grid is run with: the name, or for the harness's own economy routine
+\* a plain function
+DefaultForm(r) == r.form = (IF r.method = "callable" THEN "lambda" ELSE "name")
+
 ValidOpt(m, n, r) ==
     /\ r.method \in Methods /\ r.flip \in Flips /\ r.nonneg \in NonNegs /\ r.via \in Vias
     /\ r.k \in Ks(m, n)
@@ -60,18 +74,28 @@ ValidOpt(m, n, r) ==
     \* magnitude regime: the contract is scale invariant.  2^650 ~ 4.7e195 and 2^-530 ~ 2.8e-160 are representable,
     \* their squares are not (overflow / denormal): a genuine SVD never needs them.  symeig_svd is DEFINED through
     \* the Gram matrix A^T A and is obliged only while that is representable (|pow2| <= 400).  Plain calls only.
+    /\ r.form \in Forms
+    /\ (r.method = "callable" => r.form \notin {"name", "libfun"})
+    /\ (r.via = "direct" => r.form = "name")
+    \* the non-default forms: plain calls (flip off, non_negative off, no mask, unit magnitude), n_eigenvecs in
+    \* {None, 1, 2}, default sketch or oversampling 0 / 10
+    /\ (~DefaultForm(r) => /\ r.flip = "off" /\ r.nonneg = "off" /\ r.mask = "off" /\ r.pow2 = 0 /\ r.niter = 2
+                           /\ r.over \in {0, 5, 10})
     /\ r.pow2 \in Pow2s
     /\ (r.pow2 # 0 => /\ r.flip = "off" /\ r.nonneg = "off" /\ r.mask = "off" /\ r.over = 5 /\ r.niter = 2 /\ r.k \in {0, 1, 2}
                       /\ (r.method = "symeig_svd" => r.pow2 >= -400 /\ r.pow2 <= 400))
 
+DefaultFormOf(meth) == IF meth = "callable" THEN "lambda" ELSE "name"
 AllOpts(m, n) ==
-    {r \in [method : Methods, over : Overs, niter : NIters, mask : Masks, k : Ks(m, n), flip : Flips, nonneg : NonNegs, via : Vias,
-            pow2 : {0}] : ValidOpt(m, n, r)}
-    \cup {r \in [method : Methods, over : {5}, niter : {2}, mask : {"off"}, k : {0, 1, 2}, flip : {"off"}, nonneg : {"off"}, via : Vias,
-                  pow2 : Pow2s \ {0}] : ValidOpt(m, n, r)}
+    UNION {{r \in [method : {meth}, over : Overs, niter : NIters, mask : Masks, k : Ks(m, n), flip : Flips, nonneg : NonNegs, via : Vias,
+                   pow2 : {0}, form : {DefaultFormOf(meth)}] : ValidOpt(m, n, r)} : meth \in Methods}
+    \cup UNION {{r \in [method : {meth}, over : {5}, niter : {2}, mask : {"off"}, k : {0, 1, 2}, flip : {"off"}, nonneg : {"off"}, via : Vias,
+                         pow2 : Pow2s \ {0}, form : {DefaultFormOf(meth)}] : ValidOpt(m, n, r)} : meth \in Methods}
+    \cup UNION {{r \in [method : {meth}, over : {0, 5, 10}, niter : {2}, mask : {"off"}, k : {0, 1, 2}, flip : {"off"}, nonneg : {"off"},
+                         via : {"interface"}, pow2 : {0}, form : Forms \ {DefaultFormOf(meth)}] : ValidOpt(m, n, r)} : meth \in Methods}
 
 OptKey(r) == [method |-> r.method, over |-> r.over, niter |-> r.niter, mask |-> r.mask, k |-> r.k, flip |-> r.flip,
-              nonneg |-> r.nonneg, via |-> r.via, pow2 |-> r.pow2]
+              nonneg |-> r.nonneg, via |-> r.via, pow2 |-> r.pow2, form |-> r.form]
 
 \* ------------------------------------------------------------------ clamp and documented shapes
 \* svd_checks: "n_eigenvecs=None -> max_dim;  n_eigenvecs > max_dim -> max_dim (warning)".
@@ -258,7 +282,7 @@ VARIABLE cfg
 NoCfg == [op |-> "none"]
 Init == \/ cfg \in {[op |-> "shape", m |-> m, n |-> n] : m \in 1..MaxDim, n \in 1..MaxDim}
         \/ cfg = [op |-> "options", methods |-> Methods, overs |-> Overs, flips |-> Flips, nonnegs |-> NonNegs,
-                 niters |-> NIters, masks |-> Masks, pow2s |-> Pow2s]
+                 niters |-> NIters, masks |-> Masks, pow2s |-> Pow2s, forms |-> Forms]
 \* three levels (shape -> placement -> matrix) so that TLC's workers share the enumeration
 Next == \/ /\ cfg.op = "shape"
            /\ cfg' \in {[op |-> "place", m |-> cfg.m, n |-> cfg.n, rows |-> p.rows, cols |-> p.cols] :
